@@ -215,6 +215,9 @@ DRIVES = {
     "lock64": dict(comps=["A", "R"], maxent=6, extra=dict(queries=62), quick=dict(count=60, len=400), thorough=dict(count=1000, len=600)),
     "reset": dict(comps=["A", "B", "R"], maxent=10, extra=dict(observers=3, resetp=25, stats=True), quick=dict(count=300, len=200), thorough=dict(count=5000, len=300)),
     "reset2": dict(comps=["A", "R", "S"], maxent=8, extra=dict(observers=3, resetp=40, queries=2), quick=dict(count=200, len=200), thorough=dict(count=4000, len=300)),
+    "arity": dict(comps=["A", "B", "C", "R", "S", "F1", "F2", "F3", "F4", "F5", "F6", "F7"], maxent=10,
+                  extra=dict(arity=True, typedobs=True, observers=3, queries=2),
+                  quick=dict(count=120, len=250), thorough=dict(count=3000, len=400)),
     "plain": dict(comps=["A", "B", "C"], maxent=40, quick=dict(count=100, len=400), thorough=dict(count=1500, len=800)),
 }
 
@@ -732,6 +735,7 @@ def finish(ctx, level_text):
             families=st["families"], cells=st["cells"], tlc_cmds=st["tlc_cmds"],
             other_property_classes_seen=sorted({v["cls"] for v in other}),
             known_findings_hit=sorted(hits.keys()),
+            api_cover=st.get("api_cover"),
             design_findings=st["design_findings"],
             flaky_crashes=st.get("flaky_crashes", []),
         ),
@@ -864,18 +868,14 @@ def exec_logs_and_monitor(ctx, jobs, label):
 
 
 def zip_logs(paths, mode, out):
-    """Zip the logs of several executions of the same histories line by line into a product log: the first log is
-    paired with each of the others.  Purely structural; all comparisons are made by ArkProd.tla."""
-    files = [open(p) for p in paths]
+    """Zip the logs of two executions of the same histories line by line into a product log.
+    Purely structural; all comparisons are made by ArkProd.tla."""
     n = 0
-    with open(out, "w") as fo:
-        for lines in zip(*files):
-            for other in lines[1:]:
-                fo.write('{"k":"prod","mode":"%s","a":%s,"b":%s}\n' % (mode, lines[0].strip(), other.strip()))
-                n += 1
-        rest = [f.readline() for f in files]
-    for f in files:
-        f.close()
+    with open(paths[0]) as fa, open(paths[1]) as fb, open(out, "w") as fo:
+        for la, lb in zip(fa, fb):
+            fo.write('{"k":"prod","mode":"%s","a":%s,"b":%s}\n' % (mode, la.strip(), lb.strip()))
+            n += 1
+        rest = [fa.readline(), fb.readline()]
     if any(r for r in rest):
         return n, False      # different numbers of lines: the executions diverged structurally
     return n, True
@@ -895,7 +895,7 @@ def run_prod_monitor(ctx, logpath, timeout=900):
     return json.loads(json.loads('"' + m.group(1) + '"'))
 
 
-def product_check(ctx, mode, variants, sources, label, validate_each=True):
+def product_check(ctx, mode, variants, sources, label, validate_each=True, cover=None):
     """variants: list of (name, binary, cfg-overrides, env); sources: list of ("seq", seqfile, cfg) or ("drive", n, len, cfg).
     Every source is executed by every variant; each log is validated by ArkTrace, and the logs of one source are
     zipped (first variant vs the others) and validated by ArkProd."""
@@ -928,6 +928,10 @@ def product_check(ctx, mode, variants, sources, label, validate_each=True):
         stats = list(ex.map(one, jobs))
     if any(s is None for s in stats):
         return
+    if cover is not None:
+        for st in stats:
+            for k, v in (st.get("cover") or {}).items():
+                cover[k] = cover.get(k, 0) + v
     if validate_each:
         with ThreadPoolExecutor(max_workers=MON_PAR) as ex:
             verdicts = list(ex.map(lambda j: run_monitor(ctx, j[4]), jobs))
@@ -940,15 +944,16 @@ def product_check(ctx, mode, variants, sources, label, validate_each=True):
     prods = []
     for si, src in enumerate(sources):
         paths = [j[4] for j in jobs if j[0] == si]
-        out = os.path.join(d, "prod-%d.ndjson" % si)
-        n, same = zip_logs(paths, mode, out)
-        if not same:
-            ctx.violations.append(dict(cls="%s.shape" % mode, detail="executions of the same history produced logs of different length",
-                                       line=0, ops=None, cfg=src[-1], family=label, cell="product-%d" % si))
-        prods.append((si, out, n))
+        for oi, other in enumerate(paths[1:], 1):
+            out = os.path.join(d, "prod-%d-%d.ndjson" % (si, oi))
+            n, same = zip_logs([paths[0], other], mode, out)
+            if not same:
+                ctx.violations.append(dict(cls="%s.shape" % mode, detail="executions of the same history produced logs of different length",
+                                           line=0, ops=None, cfg=src[-1], family=label, cell="product-%d-%s" % (si, variants[oi][0])))
+            prods.append((si, out, n, variants[oi][0]))
     with ThreadPoolExecutor(max_workers=MON_PAR) as ex:
         pv = list(ex.map(lambda pr: run_prod_monitor(ctx, pr[1]), prods))
-    for (si, out, n), v in zip(prods, pv):
+    for (si, out, n, vname), v in zip(prods, pv):
         ctx.stats["events"] += v["lines"]
         ctx.stats.setdefault("product_lines", 0)
         ctx.stats["product_lines"] += v["lines"]
@@ -962,13 +967,11 @@ def product_check(ctx, mode, variants, sources, label, validate_each=True):
         import bisect
         for vi in v["viol"][:2000]:
             # map the product line back to the sequence: number of resets in the first log up to that line
-            nvar = len(variants) - 1
-            target = (vi["l"] - 1) // max(1, nvar) + 1
-            seqno = bisect.bisect_right(resets, target)
+            seqno = bisect.bisect_right(resets, vi["l"])
             ctx.violations.append(dict(cls=vi["cls"], detail=vi["d"], line=vi["l"], ops=load_seq_of_log(first, seqno),
-                                       cfg=sources[si][-1], family=label, cell="product-%d" % si))
+                                       cfg=sources[si][-1], family=label, cell="product-%d-%s" % (si, vname)))
     ctx.stats["cells"].append(dict(family=label, variants=[v[0] for v in variants], sources=len(sources),
-                                   product_lines=sum(n for _, _, n in prods)))
+                                   product_lines=sum(p[2] for p in prods)))
     if not ctx.stats["samples"] and prods:
         with open(prods[0][1]) as f:
             ctx.stats["samples"].append(dict(family=label, product_head=[json.loads(next(f)) for _ in range(2)]))
@@ -1039,6 +1042,39 @@ def check_c20(ctx):
     return finish(ctx, "product traces of the four build configurations")
 
 
+REQUIRED_API = (["Map%d" % i for i in range(1, 13)] + ["Exchange%d" % i for i in range(1, 9)] + ["Filter%d" % i for i in range(0, 9)]
+                + ["Observer", "Observer1", "Observer2", "Observer3", "Observer4"])
+
+
+def check_c14(ctx):
+    """Typed generic API vs ID-based API at every arity: the same histories through the typed path (type parameter
+    order permuted, relations by index / by type) and through the ID-based path; each execution is validated against
+    layer A (values encode the component, so a pointer handed out in the wrong order is a wrong value), the pair is
+    compared by ArkProd.  The run fails as inconclusive if a generated API variant was not exercised."""
+    quick = ctx.tier == "quick"
+    b = build_executor(ctx)
+    variants = [("typed", b, dict(CELLS["typed11"]), {}), ("unsafe", b, dict(CELLS["unsafe1"]), {}),
+                ("typedidx", b, dict(CELLS["typed1"], perm=True), {}), ("exchange", b, dict(CELLS["exch8"]), {})]
+    sources = []
+    for fam in (["core", "rel", "batch"] if quick else ["core", "rel", "batch", "cache", "obs", "lock"]):
+        g = run_generator(ctx, fam, 600)
+        if g["design_violation"]:
+            raise Inconclusive("design check of %s fails (%s); run the property's own check" % (fam, g["design_violation"]))
+        keep = max(1, min(1000, int(1000 * (2500 if quick else 40000) / max(1, g["nseq"]))))
+        sources.append(("seq", g["seqs"], keep, dict(comps=FAMILIES[fam]["exec"]["comps"], probes=4, seed=ctx.seed, typedobs=True)))
+    sources += driven_sources(ctx, b, ["arity", "wide", "rel2", "obs"], 30 if quick else 600, "typed11", dict(typedobs=True))
+    for s_ in sources:
+        for k in ("path", "caps", "relst", "perm", "fill"):
+            s_[-1].pop(k, None)
+    cover = {}
+    product_check(ctx, "C14", variants, sources, "c14", cover=cover)
+    missing = [a for a in REQUIRED_API if cover.get(a, 0) == 0]
+    ctx.stats["api_cover"] = cover
+    if missing:
+        raise Inconclusive("generated API variants never exercised: %s" % ", ".join(missing))
+    return finish(ctx, "product traces typed vs ID-based")
+
+
 def check_c18(ctx):
     quick = ctx.tier == "quick"
     # design: registry + toTypes word arithmetic at the capacity boundary (scaled constants)
@@ -1066,7 +1102,7 @@ def check_c18(ctx):
     return finish(ctx, "registry model with scaled constants; conformance with the real limits")
 
 
-CHECKS = {"C18": check_c18, "C12": check_c12, "C20": check_c20}
+CHECKS = {"C18": check_c18, "C12": check_c12, "C20": check_c20, "C14": check_c14}
 
 
 def main(argv):
